@@ -25,6 +25,9 @@ fn usage() -> ! {
 
 fn main() {
     framework::install_panic_hook();
+    if std::env::var_os("SIM_DEBUG_ENTROPY").is_some() {
+        seams::DEBUG_ENTROPY.store(true, std::sync::atomic::Ordering::Relaxed);
+    }
     let args: Vec<String> = std::env::args().collect();
     if args.len() < 2 {
         usage();
@@ -42,6 +45,10 @@ fn main() {
             let Some(s) = scen::by_property(&args[2]) else { usage() };
             let seed: u64 = args[3].parse().unwrap_or(0);
             let tier = if args.get(4).map(String::as_str) == Some("thorough") { Tier::Thorough } else { Tier::Quick };
+            // `--index N`: generate as run N of a batch does (scenarios that walk a grid by run index)
+            if let Some(i) = args.iter().position(|a| a == "--index").and_then(|p| args.get(p + 1)).and_then(|v| v.parse::<u64>().ok()) {
+                framework::set_run_index(i);
+            }
             println!("{}", serde_json::to_string_pretty(&s.generate_json(seed, tier)).unwrap_or_default());
             0
         }
